@@ -160,7 +160,7 @@ SPECS['C03'] = dict(
                 'ResultHandler/ApplyResult code.',
     functions=WORKER_FUNCS + ['billiard.pool.ApplyResult._ack', 'ResultHandler on_ack/on_ready'],
     bounds={'quick': '3 tasks per script, outcomes {return, raise Exception, raise BaseException, unserialisable}, quota 0..3, '
-                     'NACK/ACK per task after 0..2 silent polls for the first job, answered at once for the others; two jobs with the first answer after 0..70 silent polls', 'thorough': '4 tasks, outcomes {return, raise, raise BaseException} in the handshake scripts, 0..2 / 0..1 silent polls; slow answer after 0..130 polls'},
+                     'NACK/ACK per task after 0..2 silent polls for the first job, answered at once for the others; two jobs with the first answer after 0..70 silent polls', 'thorough': '4 tasks, outcomes {return, raise} in the handshake scripts, 0..2 / 0..1 silent polls; slow answer after 0..130 polls'},
     outside=['real pipes and pickling of arbitrary results', 'more than 4 tasks per worker life'],
     assumptions=WORKER_ASSUME,
     trusted_base=TRUST,
@@ -171,6 +171,10 @@ SPECS['C03'] = dict(
       + parts(twin('worker-protocol', 'harness.c03', 'h_protocol_twin', 'a run ending with the recycle status exists'), 9)
       + [ch('worker-unpicklable', 'harness.c03', 'h_unpicklable', 'unserialisable result at any set of positions: exactly one '
             'READY(False, MaybeEncodingError) for that job, loop continues', timeout=(200, 900), nontrivial_witness=True)]
+      + [ch('parent-ack', 'harness.c03', 'h_parent_ack', 'real ApplyResult._ack/_set with or without the handshake, cancelled or not, ACK before or after the result: a cancelled job is '
+            'refused (NACK, no accept callback) only under the handshake; every other job has owner and acceptance time recorded, accept callback before result callback, ACK confirmed',
+            timeout=(120, 600)),
+         twin('parent-ack', 'harness.c03', 'h_parent_ack_twin', 'a refused job exists')]
       + [ch('worker-task-raises-SystemExit', 'harness.c03', 'h_sysexit', 'a task raising SystemExit(3) or KeyboardInterrupt itself, at any position: reported as '
             'that job\'s error (type and arguments), one READY, the worker takes the next job', timeout=(200, 900), nontrivial_witness=True)]
       + tiered(lambda: ch('worker-synack', 'harness.c03', 'h_synack', 'NACKed job never executed and not counted; ACKed job runs after the answer',
@@ -280,6 +284,10 @@ SPECS['C01'] = dict(
         + parts(twin('dispatch', 'harness.c01', 'h_dispatch_twin', 'a run handling a duplicate message exists'), 12)
         + parts(twin('faults', 'harness.c01', 'h_fault_twin', 'a run reporting a lost job exists'), 18)
         + parts(twin('terminate-job', 'harness.c01', 'h_term_twin', 'a run terminating a busy worker exists'), 6)
+        + parts(ch('failing-input', 'harness.c01b', 'h_bad_input', 'a submission (imap / imap_unordered) whose input iterable fails after 0..2 items while the feeder reads it: the job '
+                   'submitted before it (any kind, first job of the pool or not, queued / accepted / finished-unread) keeps its own outcome, the feeder survives, the items '
+                   'already read are delivered', timeout=(300, 1500)), 4)
+        + parts(twin('failing-input', 'harness.c01b', 'h_bad_input_twin', 'the feeder gets through the failing input in some run'), 4)
         + parts(ch('terminate-job', 'harness.c01', 'h_term', 'terminate_job on a busy worker: Terminated for exactly its job', timeout=(300, 1500)), 6)
         + parts(ch('send-failure', 'harness.c01', 'h_send', 'a task that cannot be written (symbolic index): the failure lands on that job and only it; '
                    'every job still resolves', timeout=(300, 1500)), 3)
@@ -306,8 +314,8 @@ SPECS['C10'] = dict(
             'and has the documented effect (inductive: histories of any length)', timeout=(120, 600)),
          twin('sem-step', 'harness.c10', 'h_sem_step_twin', 'the capped release (value == bound) is reached')]
         + parts(ch('pool-slots', 'harness.c10', 'h_pool', 'conservation / blocking at the bound / all slots free at quiescence, histories of '
-                   'submissions, takes, results, exits, ticks, a map job, a failing send, result callbacks (which see the slot free again, may raise a propagated exception)', timeout=(300, 1500)), 5)
-        + parts(twin('pool-slots', 'harness.c10', 'h_pool_twin', 'a run in which apply_async blocks exists'), 5)
+                   'submissions, takes, results, exits, ticks, a map job, a failing send, result callbacks (which see the slot free again, may raise a propagated exception), grow() followed by supervision passes', timeout=(300, 1500)), 6)
+        + parts(twin('pool-slots', 'harness.c10', 'h_pool_twin', 'a run in which apply_async blocks exists'), 6)
         + [smt('race-release-release', 'harness.c10', 'ob_release_release', 'E2: release || release, every interleaving of attribute reads/writes and lock operations: value <= bound',
                replay_function='replay_race'),
            smt('race-release-grow', 'harness.c10', 'ob_release_grow', 'E2: release || grow', replay_function='replay_race'),
@@ -369,6 +377,8 @@ SPECS['C13'] = dict(
                    'message and leaves the buffer untouched; offsets validated before I/O', timeout=(300, 1500), nontrivial_witness=True), 8, 12) + [
         ch('send-reach', 'harness.c13', 'h_send_twin', 'a run with split writes and an EINTR retry exists', timeout=(120, 600), expect='refuted', env={'VERIF_PART': '7', 'VERIF_NPART': '8'}, quick_only=True),
         ch('recv-reach', 'harness.c13', 'h_recv_twin', 'a run delivering both messages over >= 5 reads exists', timeout=(120, 600), expect='refuted', env={'VERIF_PART': '11', 'VERIF_NPART': '12'}, quick_only=True),
+        ch('socket-blocking-mode', 'harness.c13', 'h_socket_blocking', 'SocketListener.accept (after 0..2 EINTRs) and SocketClient with no / zero / positive socket default timeout: the '
+           'socket handed to Connection is in blocking mode (the framing code relies on blocking reads and writes)', timeout=(120, 600), nontrivial_witness=True),
         ch('state', 'harness.c13', 'h_state', 'closed or wrong-direction handles rejected before any I/O', timeout=(120, 600), nontrivial_witness=True),
         ch('threshold', 'harness.c13', 'h_threshold', 'symbolic length across 16384 and 2**31-1: header+payload exactly once, struct.error beyond the limit',
            timeout=(120, 600)),
@@ -574,8 +584,8 @@ SPECS['C07'] = dict(
     assumptions=POOL_ASSUME + ['helper threads are played by the harness on one thread (feeder turn = real TaskHandler.body; workers move while the result handler polls)'],
     trusted_base=TRUST,
     obligations=(
-        parts(ch('close-join', 'harness.c07', 'h_close_join', 'close() then join(): drains, refuses late jobs, sentinels, no hang, workers gone, no 30 s guard', timeout=(400, 1800)), 8)
-        + parts(twin('close-join', 'harness.c07', 'h_close_join_twin', 'join() returns in some run'), 8)
+        parts(ch('close-join', 'harness.c07', 'h_close_join', 'close() then join(): drains, refuses late jobs, sentinels, no hang, workers gone, no 30 s guard; also on a pool one of whose workers is a replacement', timeout=(400, 1800)), 16)
+        + parts(twin('close-join', 'harness.c07', 'h_close_join_twin', 'join() returns in some run'), 16)
         + [ch('death-after-close', 'harness.c07', 'h_death_after_close', 'a worker dies in task code after close(): exactly its job fails with WorkerLostError, the '
               'other job keeps its result, join() returns', timeout=(300, 1500)),
            twin('death-after-close', 'harness.c07', 'h_death_after_close_twin', 'join() returns in some such run'),
@@ -679,6 +689,14 @@ SPECS['C20'] = dict(
           'other still works and the referent lives until the last is gone; lock-like referent: acquire(blocking, timeout) reaches the referent with exactly '
           'the caller\'s arguments and returns what the local call returns', timeout=(300, 1500)),
        twin('shared-referent-and-locks', 'harness.c20', 'h_shared_and_locks_twin', 'the scenarios are reached'),
+    ] + parts(ch('other-types', 'harness.c20', 'h_types', 'Namespace, Value, Array, Event, Queue, Lock, BoundedSemaphore proxies: histories of operations with symbolic arguments '
+                 'return or raise what the same operations on a local object of the registered class do, state equal after every step; referent disposed after the proxy',
+                 timeout=(300, 1500)), 7)
+      + parts(twin('other-types', 'harness.c20', 'h_types_twin', 'a whole history runs'), 7) + [
+       ch('thread-affine-referent', 'harness.c20', 'h_affine', 'a referent that must be released by the server thread that acquired it (what RLock/Condition are; the server serves '
+          'each connection in its own thread): acquire, release an unrelated proxy at any point, release - the proxy behaves like the local object, i.e. the client thread '
+          'keeps its one connection while it holds proxies', timeout=(300, 1200)),
+       twin('thread-affine-referent', 'harness.c20', 'h_affine_twin', 'a run releasing the unrelated proxy while the referent is held exists'),
        ch('proxies-in-a-forked-child', 'harness.c20', 'h_fork_child', 'a child forked while proxies exist (its whole life through the real BaseProcess._bootstrap: registry '
           'cleared, real after-fork hooks, target using the inherited proxy, real exit function): the child\'s copies are counted by the server, the child never '
           'talks on a connection the parent opened (nor the parent on the child\'s), the child\'s exit releases exactly its references, the referent lives on '
